@@ -982,3 +982,61 @@ def check_status_guards(rule, db, cfgname, owners):
         else:
             rule.bad(site, f.loc(g_[0]), "the function returns early already at Status %s %s, below the level %s it is meant to establish: after the previous stage it never does its work" % (
                 g_[2], g_[1][1].split("::")[-1], s_last[1][1].split("::")[-1]), cfgname)
+
+
+def check_memo_flags(rule, db, cfgname, classes):
+    """A member function that returns at once when a boolean member of its object is set ("already done") and sets that
+    member when it has done its work caches the fact that the containers it walked were processed.  Every other member
+    function that changes one of those containers must reset the flag, otherwise work added later is never done (e.g.
+    prepareAll(A); computeAll(); prepareAll(B); computeAll() leaves the operators of B uncomputed).
+    One instance per scanned class (no gate: trivially coherent) or per (gate, mutator)."""
+    from pv.effects import Effects
+    eff = Effects(db)
+    for cls in classes:
+        methods = [x for x in db.fns.values() if x.rec == cls and x.body is not None and x.body >= 0 and x.kind not in ("ctor", "dtor")]
+        if not methods:
+            continue
+        gates = []
+        for m in sorted(methods, key=lambda y: (y.file, y.line)):
+            mctx = Ctx(m, db)
+            body = m.nodes[m.body]
+            for s_ in body.get("body", []) if body["k"] == "block" else []:
+                n = m.nodes[s_]
+                if n["k"] == "if" and n.get("else") is None and any(mm["k"] == "return" for _, mm in m.walk(n["then"])):
+                    for fct in mctx.cmp_fact(n["c"], True):
+                        if fct[0] == "true" and fct[1][0] == "field" and len(fct[1]) == 3 and fct[1][2] == THIS:
+                            fq = fct[1][1]
+                            sets = [j for j, nn in m.walk(m.body) if nn["k"] == "bin" and nn["op"] == "=" and mctx.key(nn["l"], inline=False) == fct[1] and mctx.key(nn["r"]) == ("lit", 1)]
+                            if sets:
+                                gates.append((m, mctx, fq, s_))
+        if not gates:
+            rule.ok("%s:no-stale-done-flag" % cls, sorted(methods, key=lambda y: (y.file, y.line))[0].loc(), "no member function is gated by a boolean `already done` member", cfgname)
+            continue
+        for m, mctx, fq, s_ in gates:
+            # containers of the object that the gated function walks
+            walked = set()
+            for j, n in m.walk(m.body):
+                if n["k"] in ("for", "while", "forrange"):
+                    shp = loop_shape(m, mctx, j)
+                    b_ = shp.get("bound")
+                    if b_ is not None:
+                        for y in [b_] + [x for x in (b_[2:] if isinstance(b_, tuple) else [])]:
+                            if isinstance(y, tuple) and y[0] == "field" and len(y) == 3 and y[2] == THIS:
+                                walked.add(y[1])
+            site0 = "%s:done-flag:%s" % (m.qn, fq.split("::")[-1])
+            if not walked:
+                rule.unknown(site0, m.loc(s_), "the function is gated by the member %s, but what it processes was not identified" % fq.split("::")[-1], cfgname)
+                continue
+            stale = []
+            for o in methods:
+                if o.mangled == m.mangled or o.d.get("const"):
+                    continue
+                w = eff.this_writes(o)
+                if (w & walked) and fq not in w:
+                    stale.append((o, sorted(x.split("::")[-1] for x in (w & walked))))
+            if stale:
+                o, ws = stale[0]
+                rule.bad(site0, m.loc(s_), "%s returns at once when %s is set and sets it after processing %s; %s changes %s without resetting the flag: what it adds is never processed by a later call" % (
+                    m.qn.split("::")[-1], fq.split("::")[-1], ", ".join(sorted(x.split("::")[-1] for x in walked)), o.qn.split("::")[-1], ", ".join(ws)), cfgname)
+            else:
+                rule.ok(site0, m.loc(s_), "every member function that changes %s resets %s" % (", ".join(sorted(x.split("::")[-1] for x in walked)), fq.split("::")[-1]), cfgname)
